@@ -106,7 +106,7 @@ func c03(c *Ctx) {
 			continue
 		}
 		lastNode, lastTgt = ev.Node.ID, ""
-		if ev.Func != "build_dhcp_options" {
+		if !ev.Within("build_dhcp_options") {
 			if ev.Name == "" {
 				note(ev.Lbl, ev)
 			}
@@ -787,7 +787,7 @@ func c03CompleteKey(c *Ctx, tu *cfront.TU, x *cexec.Exec) {
 	type symT = interface{}
 	lens := map[string]cexec.Val{}
 	for _, ev := range x.Events {
-		if ev.Kind == "cmpk" && ev.Func == "extract_circuit_id_fixed" && ev.Off == keyLen && strings.HasPrefix(ev.Val.Org, "pkt:") {
+		if ev.Kind == "cmpk" && ev.Within("extract_circuit_id_fixed") && ev.Off == keyLen && strings.HasPrefix(ev.Val.Org, "pkt:") {
 			lens[ev.Val.String()+fmt.Sprint(ev.Val.L)] = ev.Val
 		}
 	}
